@@ -1112,7 +1112,12 @@ func (s *stream) deliverLocked(data []byte, eventID string, responseTo jsonrpc.I
 	// SEP-2575 protocol-level error override: write the error as a raw
 	// JSON-RPC response with the spec-mandated HTTP status, bypassing any
 	// SSE framing.
-	if overrideStatus != 0 {
+	//
+	// That is only possible while nothing has been written to the response yet:
+	// once the SSE stream has started (the handler sent a notification on its
+	// request before failing), the status line is gone and raw JSON would
+	// corrupt the stream, so the error travels as an ordinary SSE message.
+	if overrideStatus != 0 && (s.pendingJSONMessages != nil || s.lastIdx < 0) {
 		s.w.Header().Set("Content-Type", "application/json")
 		s.w.WriteHeader(overrideStatus)
 		if _, err := s.w.Write(data); err != nil {
